@@ -738,6 +738,49 @@ def render(holds, marks, bb, bm, unknown):
     return "\n".join(L) + "\n"
 
 
+def alloc_sites(repo):
+    """every function of vm.rs / core.rs that calls an allocating constructor (new_gc_obj_* / new_root_obj_* /
+    Root::new / UniqueRoot::new), classified; the plug-in must have a mid-operation probe for each `runtime` site"""
+    out = {}
+    for f in ("vm.rs", "core.rs", "compiler.rs"):
+        with open(os.path.join(repo, "yarel", "src", f)) as fh:
+            toks = lex(fh.read())
+        fns = []
+        skip_until = -1
+        for i, t in enumerate(toks):
+            if t.text == "mod" and i + 2 < len(toks) and toks[i + 1].text.startswith("verif") and toks[i + 2].text == "{":
+                skip_until = max(skip_until, match_group(toks, i + 2))
+            if t.text == "fn" and i + 1 < len(toks) and toks[i + 1].kind == "id":
+                j = i
+                while toks[j].text not in ("{", ";"):
+                    j += 1
+                if toks[j].text == "{":
+                    fns.append((toks[i + 1].text, j, match_group(toks, j), i < skip_until))
+        for k, t in enumerate(toks):
+            if t.kind != "id" or toks[k - 1].text == "fn":
+                continue
+            hit = t.text.startswith("new_gc_obj_") or t.text.startswith("new_root_obj_") or (
+                t.text in ("Root", "UniqueRoot") and toks[k + 1].text == "::" and toks[k + 2].text == "new")
+            if not hit:
+                continue
+            inner = [x for x in fns if x[1] < k < x[2]]
+            if not inner:
+                continue
+            name, _, _, hook = inner[-1]
+            if hook:
+                cat = "hook"
+            elif name.startswith("new_gc_obj_") or name.startswith("new_root_obj_") and not name.endswith("class"):
+                cat = "constructor"
+            elif name.endswith("_class") or name.endswith("_metaclass") or name in ("init_heap_allocated_data", "build_methods", "new_base_metaclass"):
+                cat = "vm-init"
+            elif name in ("execute", "global", "set_global", "define_native"):
+                cat = "host-api"
+            else:
+                cat = "runtime"
+            out["%s:%s" % (f, name)] = cat
+    return out
+
+
 def gen_gctables(man):
     repo = os.environ.get("VERIF_REPO", "/repo")
     holds, marks, bb, bm, unknown, detail = extract(repo)
@@ -746,6 +789,7 @@ def gen_gctables(man):
         "marks": {k: sorted(v) for k, v in marks.items() if v},
         "blackens_mark": {k: sorted(v) for k, v in bm.items() if v},
         "holds": {k: v for k, v in holds.items()},
+        "alloc_sites": alloc_sites(repo),
     }
     return render(holds, marks, bb, bm, unknown)
 
